@@ -230,6 +230,8 @@ def generate():
           r"_upstream->allocate\(local\.buffer\.data\(\),\s*_batch_size\);\s*local\.next_page = local\.buffer\.begin\(\) \+ 1;\s*return \*local\.buffer\.data\(\);",
           ba, "BatchPageAllocator::allocate shape")
     items.append(nat_def("batchShapeChecked", 1))
+    # repaired shape (fix 57c94b4): a slot built by the default constructor gets its buffer before the first refill
+    items.append(nat_def("batchLazyBuffer", 1 if re.search(r"if\s*\([^{};]*local\.buffer\.size\(\)\s*!=\s*_batch_size[^{};]*\)\s*\{\s*local\.buffer\.resize\(_batch_size\);", ba) else 0))
     # counter update relative to the forwarded call: Counting counts BEFORE, PageHeap AFTER
     def count_pos(body, callee, what):
         b = strip_comments(body)
@@ -268,6 +270,9 @@ def generate():
     sk["pool_push"] = skeleton(of("push", 0), ocalls[:-1])
     sk["pool_push_deleter"] = skeleton(of("push", 1), [r"push"])
     sk["pool_deleter_call"] = skeleton(function_body(op, r"ObjectPool<T>::Deleter::operator\(\)\s*\("), [r"_pool->push"])
+    # repaired shape (fix f852e35): Deleter::operator=(Deleter&&) returns *this
+    da = strip_comments(function_body(op, r"ObjectPool<T>::Deleter::operator=\s*\("))
+    items.append(nat_def("deleterAssignReturnsThis", 1 if re.search(r"swap\(_pool,\s*other\._pool\);\s*return\s*\*this\s*;", da) else 0))
     po = strip_comments(of("pop"))
     m = _need(r"_free_objects\.template pop<([^>]*)>\(", po, "pool pop flags")
     items.append("def poolPopFlags : List Bool := %s" % _flags(m.group(1)))
